@@ -256,6 +256,30 @@ CHECKS = {
         note='trusted: the list model inside vmon/monitors/c20.py; notifications and invalid remove/replace are not generated'),
 }
 
+# round 11 additions to the explored space (appended to the texts above)
+ROUND11 = {
+    'C01': 'results / error data that are mappings with non-string keys, exceptions chained to protocol errors, one long-lived error object raised again and again, application error objects with a truth value of their own, large (17..260) batches of really suspending elements, every warning escalated to an exception as a dispatcher flavour (totality only).',
+    'C02': 'the probes of C01 plus one dispatcher object serving under several event loops in turn (incl. batches of more than 64 suspending elements), one pydantic validator shared by two modules whose functions have the same signature text, defaults that compare equal across methods (1 / True / 1.0).',
+    'C03': 'exceptions explicitly chained to (or raised while handling) a protocol error are still arbitrary exceptions; a long-lived error object updated and raised again must be reproduced with its current code / message / data.',
+    'C04': 'server-side context objects of any truth value ({} [] () set() \'\' b\'\' 0 0.0 False, objects with __len__ 0 / __bool__ False, None counted unjudged) in all three context-passing modes.',
+    'C05': 'application error classes registered under falsy / edge codes (0, +-1, 2^31, -2^63 ...), declared late; messages deserialised after mutable members of an earlier message were modified in place (survivor histories).',
+    'C06': 'additional members on error objects / envelopes through every from_json route; extend() handed lists, tuples, dict views and one-shot iterables; null-id objects carrying both error and result.',
+    'C07': 'the library\'s own requests / httpx (sync, async) / aiohttp client backends over HTTP against a loop-back peer serving the probe world; the batch.proxy...() call form.',
+    'C08': '22 wrong spellings of the reply\'s jsonrpc member at every level (single, batch element, batch-level error); batch-level error objects that also carry a result.',
+    'C09': 'zero-valued backoff parameters (max_value / base / factor / multiplier of 0 and 0.0); notifications from strict and lenient clients over transports that answer them (judged: lenient client or empty body = one send, no pause, None).',
+    'C10': 'parameterless methods taking the context by keyword next to parameterless methods without context, across batches and dispatchers sharing the default validator; elements whose callable returns a coroutine without being a coroutine function (async __call__, wrapped async def, delegating def, partials).',
+    'C11': 'caller-supplied trace contexts of any truth value on both client halves.',
+    'C12': 'error handlers returning falsy error objects at every position; middlewares / handler lists handed over as one-shot and other non-list iterables to the core dispatchers and to the aiohttp / flask / werkzeug integration objects.',
+    'C13': 'per-code signing error handlers in the used-vs-fresh histories; one pydantic validator over two modules with the same signature text; defaults comparing equal across methods; long-lived error object and non-string-key probes.',
+    'C14': 'one validator object over several same-named functions with different signatures (all validators, functions and views, varying call order); class / static view methods; validator-level default schemas.',
+    'C15': 'registered callables and view classes with unusual truthiness through every registration entry point; names and prefixes starting / ending with or doubling the separator.',
+    'C16': 'methods documenting different error classes that share a code; methods_map values as one-shot and other non-list iterables; the document as served by the aiohttp / flask integrations over HTTP (compared with schema() on a fresh specification object).',
+    'C17': 'one extractor / specification object documenting same-named callables with different signatures in both orders and across generations; JSON null as the value of by-name parameters with / without defaults.',
+    'C18': 'chunked and streamed request bodies (no Content-Length), split bodies, terminated WSGI input; results with non-string mapping keys on all three integrations.',
+    'C19': 'falsy tracers, tracers in nine re-iterable containers and as one-shot iterables; one batch object reused over several round trips and grown through every adding entry point in between.',
+    'C20': 'several mockers alive at the same time (same and different pairs, one stopped while the other is active); configured errors whose data is set but falsy.',
+}
+
 NOT_BUILT_REASON = 'no check registered yet in this round (monitor under construction, see DESIGN.md §3)'
 
 
@@ -272,7 +296,9 @@ def main() -> int:
                 'evidence_file': f'/verif/evidence/{pid}.json',
                 'replay_cmd_template': f'./check {pid} --replay {{path}}',
                 'engine': 'vmon',
-                'level_claimed': {'category': c['category'], 'text': c['text'], 'design_ref': c['design_ref']},
+                'level_claimed': {'category': c['category'],
+                                  'text': c['text'] + (' Round 11: ' + ROUND11[pid] if pid in ROUND11 else ''),
+                                  'design_ref': c['design_ref']},
                 'level_note': c['note'],
                 'technique': c['technique'],
             })
